@@ -180,6 +180,10 @@ def write_world(d: Path, w: Dict[str, Any]) -> Path:
     srows = []
     for s in w["stations"]:
         for (cid, cnt, on_shift) in s["plugs"]:
+            if w.get("split_rows") and cnt >= 2:
+                # the plugs of one type listed on two rows of the file (a supported layout: the counts add up)
+                srows.append((s["id"], f"{s['lat']:.7f}", f"{s['lon']:.7f}", 1, cid, "true" if on_shift else "false"))
+                cnt -= 1
             srows.append((s["id"], f"{s['lat']:.7f}", f"{s['lon']:.7f}", cnt, cid, "true" if on_shift else "false"))
     csv(d / "stations" / "stations.csv", ["station_id", "lat", "lon", "charger_count", "charger_id", "on_shift_access"], srows)
     csv(
